@@ -74,6 +74,64 @@ def is_nan(x):
     return isinstance(x, (float, _np.floating)) and x != x
 
 
+def _sexprs(text):
+    toks = text.replace("(", " ( ").replace(")", " ) ").split()
+    pos = 0
+
+    def rd():
+        nonlocal pos
+        t = toks[pos]
+        pos += 1
+        if t == "(":
+            out = []
+            while toks[pos] != ")":
+                out.append(rd())
+            pos += 1
+            return out
+        return t
+    out = []
+    while pos < len(toks):
+        out.append(rd())
+    return out
+
+
+def _num(e):
+    if isinstance(e, str):
+        e = e.rstrip("?")
+        return fractions.Fraction(e)
+    op, args = e[0], [_num(a) for a in e[1:]]
+    if op == "-":
+        return -args[0] if len(args) == 1 else args[0] - sum(args[1:])
+    if op == "+":
+        return sum(args)
+    if op == "*":
+        r = fractions.Fraction(1)
+        for a in args:
+            r *= a
+        return r
+    if op == "/":
+        return args[0] / args[1]
+    raise ValueError(f"cannot read model value {e}")
+
+
+def parse_cli_model(out):
+    """(define-fun name () Real value) lines of a z3 model -> {name: Fraction} (algebraic values as 40-digit decimals)."""
+    body = out.split("\n", 1)[1] if "\n" in out else ""
+    env = {}
+    for top in _sexprs(body):
+        items = top[1:] if (isinstance(top, list) and top and top[0] == "model") else (top if isinstance(top, list) else [])
+        for it in items:
+            if isinstance(it, list) and len(it) == 5 and it[0] == "define-fun" and it[2] == []:
+                try:
+                    if it[3] == "Real" or it[3] == "Int":
+                        env[it[1]] = _num(it[4])
+                    elif it[3] == "Bool":
+                        env[it[1]] = (it[4] == "true")
+                except (ValueError, ZeroDivisionError, IndexError):
+                    pass
+    return env
+
+
 # ----------------------------------------------------------------------------- context
 class Ctx:
     cur = None
@@ -109,14 +167,70 @@ class Ctx:
     def constraints(self):
         return list(self.solver.assertions())
 
+    def _nlsat(self, extra, want_model=False):
+        """Polynomial real arithmetic engine (Settings.engine == "nlsat"): a fresh nlsat solver on the asserted constraints."""
+        s = z3.Then("simplify", "purify-arith", "qfnra-nlsat").solver()
+        s.set("timeout", int(self.timeout_ms))
+        s.add(*self.solver.assertions())
+        s.add(*extra)
+        try:
+            r = s.check()
+        except z3.Z3Exception:
+            return z3.unknown, None
+        return r, (s.model() if (want_model and r == z3.sat) else None)
+
+    def query_assumptions_only(self, *extra, timeout_ms=None):
+        """Decide extra under the input/defining assumptions alone (branch decisions of the path left out): unsat is
+        stronger than needed, sat is a candidate for the replay.  Polynomial engine (z3cli)."""
+        keep = self.timeout_ms
+        if timeout_ms:
+            self.timeout_ms = timeout_ms
+        t = time.time()
+        try:
+            return self._cli(extra, want_model=True, base=list(self.assumptions))
+        finally:
+            self.timeout_ms = keep
+            self.n_checks += 1
+            self.solver_ms += (time.time() - t) * 1000
+
+    def _cli(self, extra, want_model=False, base=None):
+        """Settings.engine == "z3cli": the query is written out as SMT-LIB2 and decided by the z3 4.8.12 binary with its
+        nlsat tactic (it decides the polynomial queries of the Voronoi harness in a fraction of a second where the
+        5.1.0 library does not finish).  A model comes back as {constant name: Fraction / float}."""
+        import subprocess
+        s = z3.Solver()
+        s.add(*(self.solver.assertions() if base is None else base))
+        s.add(*extra)
+        text = s.to_smt2()
+        text = text.replace("(check-sat)", "(check-sat-using (then simplify purify-arith qfnra-nlsat))" + ("\n(get-model)" if want_model else ""))
+        text = "(set-option :pp.decimal true)\n(set-option :pp.decimal_precision 40)\n" + text
+        secs = max(1, int((self.timeout_ms + 999) // 1000))
+        try:
+            out = subprocess.run([Settings.z3_binary, f"-T:{secs}", "-in"], input=text, capture_output=True, text=True, timeout=secs + 10).stdout
+        except subprocess.TimeoutExpired:
+            return z3.unknown, None
+        head = out.strip().split("\n", 1)[0].strip() if out.strip() else ""
+        if "(error" in out and head not in ("sat", "unsat"):
+            return z3.unknown, None
+        if head == "unsat":
+            return z3.unsat, None
+        if head != "sat":
+            return z3.unknown, None
+        return z3.sat, (parse_cli_model(out) if want_model else None)
+
     def _check(self, *extra):
         t = time.time()
-        self.solver.push()
-        try:
-            self.solver.add(*extra)
-            r = self.solver.check()
-        finally:
-            self.solver.pop()
+        if Settings.engine == "z3cli":
+            r = self._cli(extra)[0]
+        elif Settings.engine == "nlsat":
+            r = self._nlsat(extra)[0]
+        else:
+            self.solver.push()
+            try:
+                self.solver.add(*extra)
+                r = self.solver.check()
+            finally:
+                self.solver.pop()
         self.n_checks += 1
         self.solver_ms += (time.time() - t) * 1000
         return r
@@ -185,6 +299,11 @@ class Ctx:
 
     def model(self, *extra):
         t = time.time()
+        if Settings.engine in ("nlsat", "z3cli"):
+            r, m = self._cli(extra, want_model=True) if Settings.engine == "z3cli" else self._nlsat(extra, want_model=True)
+            self.n_checks += 1
+            self.solver_ms += (time.time() - t) * 1000
+            return r, m
         self.solver.push()
         try:
             self.solver.add(*extra)
@@ -331,7 +450,49 @@ UF_POW10 = z3.Function("pow10", z3.RealSort(), z3.RealSort())
 UF_SINC = z3.Function("sin", z3.RealSort(), z3.RealSort())
 
 
+class Angle:
+    """atan2(y, x) of symbolic reals, kept as the direction (x, y): only its ORDER is ever needed (argsort of
+    polygon vertices).  Angles in (-pi, pi] are compared exactly: by half plane first, by the sign of the cross
+    product inside a half plane."""
+    __slots__ = ("x", "y")
+
+    def __init__(self, y, x):
+        self.x, self.y = x, y
+
+    def _half(self):
+        # 0: (-pi, 0)   1: 0   2: (0, pi)   3: pi
+        if self.y < 0:
+            return 0
+        if self.y > 0:
+            return 2
+        return 3 if self.x < 0 else 1
+
+    def __lt__(self, o):
+        ha, hb = self._half(), o._half()
+        if ha != hb:
+            return ha < hb
+        if ha in (1, 3):
+            return False
+        return bool(self.x * o.y - self.y * o.x > 0)
+
+    def __gt__(self, o):
+        return o.__lt__(self)
+
+    def __le__(self, o):
+        return not o.__lt__(self)
+
+    def __ge__(self, o):
+        return not self.__lt__(o)
+
+    def __eq__(self, o):
+        return not self.__lt__(o) and not o.__lt__(self)
+
+    __hash__ = None
+
+
 class Settings:
+    engine = "smt"       # "smt" (incremental z3 core) | "nlsat" (fresh nlsat solver per query) | "z3cli" (z3 4.8.12 binary, nlsat tactic)
+    z3_binary = "/usr/bin/z3"
     sqrt_mode = "uf"     # "uf" | "exact"
     mag_mode = "uf"      # "uf" | "exact"
 
@@ -539,8 +700,23 @@ class Sym:
             c.assume(y >= 0)
             return Sym(y)
         y = c.fresh_real("sqrt")
+        if Settings.sqrt_mode == "positive":
+            # over-approximation: any positive value; the defining equation is kept aside for the queries that need it
+            c.assume(y > 0)
+            c.notes.setdefault("sqrt_defs", []).append(y * y == s.e)
+            return Sym(y)
         c.assume(z3.And(y >= 0, y * y == s.e))
         return Sym(y)
+
+    def arctan2(s, x):
+        return Angle(s, x if isinstance(x, Sym) else Sym(qval(x)))
+
+    def sign(s):
+        if s > 0:
+            return 1.0
+        if s < 0:
+            return -1.0
+        return 0.0
 
     def exp(s):
         if s.ex is not None:
